@@ -182,7 +182,7 @@ func c18Jobs(tier string) []*SeqJob {
 	}
 
 	// bucket names: every spec of the C03 enumeration, precisions 1..12, directly and through a root scope
-	L := tierInt(tier, 3, 4)
+	L := tierInt(tier, 3, 5)
 	va, da := c03ValueAlphabet(), c03DurationAlphabet()
 	va = append(va, 16777217, 16777216, 0.1, 100.1, 1e9+1)
 	hname := "h"
